@@ -43,13 +43,18 @@ type c05Drv struct {
 	stdin io.WriteCloser
 }
 
-func c05StartDrv() *c05Drv {
+// c05StartDrv starts the compiled Lean driver of C05 as a co-process. The check copies it to
+// work/C05/drv (= <out dir>/../drv); $VH_DRV overrides the location.
+func c05StartDrv(outDir string) *c05Drv {
 	path := os.Getenv("VH_DRV")
 	if path == "" {
-		path = filepath.Join("..", "lean", ".lake", "build", "bin", "drv")
+		path = filepath.Join(outDir, "..", "drv")
+		if _, err := os.Stat(path); err != nil {
+			path = filepath.Join("..", "lean", ".lake", "build", "bin", "drv_C05")
+		}
 	}
 	d := &c05Drv{}
-	cmd := exec.Command(path, "C05")
+	cmd := exec.Command(path)
 	stdin, err1 := cmd.StdinPipe()
 	stdout, err2 := cmd.StdoutPipe()
 	if err1 != nil || err2 != nil || cmd.Start() != nil {
@@ -149,7 +154,15 @@ func c05Sig(f [2]string) string {
 		if len(w) > 0 {
 			sig += ":" + strings.TrimSuffix(w[0], ":")
 		}
-	case "ct-cover", "xml-wellformed":
+	case "xml-wellformed":
+		// detail: "part <name> is not well-formed XML: in <elem>: <parser message class>"
+		if len(w) > 1 {
+			sig += ":" + c05Digits.Replace(w[1])
+		}
+		if i := strings.Index(f[1], "XML: "); i >= 0 {
+			sig += ":" + strings.ReplaceAll(c05Digits.Replace(f[1][i+5:]), " ", "_")
+		}
+	case "ct-cover":
 		// detail: "part <name> …"
 		if strings.HasPrefix(f[1], "part  ") {
 			sig += ":<empty-entry-name>"
@@ -563,7 +576,7 @@ func c05SwapSheetIDs(data []byte) []byte {
 
 func runC05(r *Run, rng *Rng, replay string) {
 	r.Rule = "one case = one package written by WriteToBuffer after an API history (validated by the Lean WF on the graph extracted with archive/zip+encoding/xml) or one bookkeeping operation compared with Impl; a package is non-trivial when its graph has more lines than the NewFile template's; bookkeeping ops are distinct by op text and result"
-	d := c05StartDrv()
+	d := c05StartDrv(r.Dir)
 	defer d.close()
 	if !d.ok {
 		r.Notes = append(r.Notes, "Lean driver binary not found: WF verdicts unavailable")
@@ -675,6 +688,11 @@ func c05Replay(r *Run, d *c05Drv, path string) {
 	}
 	if len(hist) > 0 {
 		c05RunHistory(r, d, hist, true, "replay")
+		// VH_C05_MIN=<signature>: minimise the replayed history for that signature into <out>/min.ops
+		if sig := os.Getenv("VH_C05_MIN"); sig != "" {
+			small := c05Shrink(r, d, hist, sig, c05ShrinkBudget())
+			_ = os.WriteFile(filepath.Join(r.Dir, "min.ops"), []byte(strings.Join(small, "\n")+"\n"), 0o644)
+		}
 	}
 }
 
